@@ -888,3 +888,77 @@ def c14(ctx):
             'Required: d must be included in the base exactly when the variant binds, and then both behave identically (verdict, included '
             'set, trace); MustConsume: verified validator on the implementation\'s bound chain (nearest actual consumer); S5 correspondence')
     return pair_family(ctx, 'C14', 'desired', 'plain', n, ['desired'], rule, extra)
+
+
+# ---------------------------------------------------------------- concurrency family: C08 C09 C10 (C12 below)
+
+def conc_family(ctx, prop_id, tests, rule, seq_extra=None):
+    ob, dis, details = proof_obligations(ctx, prop_id)
+    rounds = 6 if ctx.tier == 'quick' else 60
+    lines, races, stderr = vcheck.conc_run(ctx, rounds)
+    st = collections.Counter()
+    if lines is not None:
+        for l in lines:
+            tk = l.split()
+            if not any(tk[1].startswith(t) for t in tests):
+                continue
+            st[tk[1] + '-' + tk[2]] += 1
+            if tk[2] != 'ok':
+                ctx.violations.append(('concurrent workload %s: %s' % (tk[1], ' '.join(tk[3:])), write_replay(ctx, 'conc_%s.txt' % tk[1], '\n'.join(lines) + '\n' + stderr), True))
+            elif len(ctx.samples) < 4:
+                ctx.samples.append(l)
+        if races:
+            ctx.violations.append(('the race detector reported %d data race(s) in the concurrent workloads' % races,
+                                   write_replay(ctx, 'race_report.txt', stderr), True))
+    if seq_extra:
+        seq_extra(ctx, st)
+    ctx.cov['evaluations'] = sum(st.values())
+    ctx.cov['distinct_nontrivial'] = sum(1 for k in st if k.endswith('-ok')) + len(set(l.split()[1] + l.split()[3] for l in (lines or []) if len(l.split()) > 3))
+    ctx.cov['traces_validated_against_impl'] = sum(v for k, v in st.items() if k.endswith('-ok'))
+    ctx.cov['workload_outcomes'] = dict(st)
+    ctx.cov['race_reports'] = races
+    ctx.assumptions += ['the Go memory model, sync.Mutex/RWMutex/Once and the runtime scheduler are modelled as sequentially consistent primitives, not verified',
+                        'the race detector and the randomised goroutine workloads support the validation of the model against the code; they do not stand in for the theorems']
+    if len(ctx.violations) > 5:
+        ctx.violations.sort(key=lambda v: not v[2]); ctx.violations = ctx.violations[:5]
+    return finish(ctx, 'proof', ob, dis, details, rule)
+
+
+@prop('C09')
+def c09(ctx):
+    def seq(ctx, st):
+        # sequential cache behaviour across invocations and chains is part of the S7 correspondence ("memo" profile)
+        cases = load_cases(ctx, 'run', 600 if ctx.tier == 'quick' else 6000, 'memo')
+        if cases is not None:
+            corpus = load_corpus(ctx, 'C09')
+            s7_check(ctx, 'C09x', corpus + cases)
+            for c in corpus + cases:
+                if not c.ok or c.skip:
+                    continue
+                who, i = classify_diff(c.t, c.s)
+                if who is not None and 'memoize' in c.features():
+                    ctx.violations.append(('memoized chain differs from Spec (one call per distinct input tuple) at event %d (case %s)' % (i, c.key),
+                                           write_replay(ctx, 'case_%s.txt' % c.key, c.text()), True))
+    rule = ('theorems over the cacher phase machine for all threads/schedules/key histories; the four cachers and the registry functions '
+            'extracted from cache.go on this run must satisfy the wellLocked/wellRegistered recognisers (decide); goroutine workloads on the '
+            'real nject under -race: a memoized provider shared by two chains, 4-16 goroutines, 1-6 keys (calls per key, every observed '
+            'result equals the one call\'s result), key distinctness (nil vs ""), unmappable keys; sequential memo behaviour via the S7 '
+            'correspondence with the memo-heavy generator profile')
+    return conc_family(ctx, 'C09', ['memo'], rule, seq)
+
+
+@prop('C10')
+def c10(ctx):
+    rule = ('theorems over the sync.Once phase machine for all threads and schedules; extracted closures (singleton, initImp, lazy init, '
+            'generateSingleton) must satisfy wellOnced*/wellRegistered (decide); workloads under -race: a Singleton shared by 4 chains, '
+            'static chain with and without init function, 4-16 goroutines racing on init/first invoke with different arguments')
+    return conc_family(ctx, 'C10', ['singleton', 'static'], rule)
+
+
+@prop('C08')
+def c08(ctx):
+    rule = ('invokeImpl extracted from bind.go must satisfy wellIsolatedInvoke (private copy after lazy init; decide); Exec theorems: an '
+            'invocation never writes the shared base; workloads under -race: nested wrappers calling inner twice (and a Parallel wrapper '
+            'calling it from two goroutines), 4-16 goroutines x 10-50 invocations with distinct arguments, every result compared with the '
+            'sequential expectation; memoized/singleton sharing across chains covered by the C09/C10 workloads in the same run')
+    return conc_family(ctx, 'C08', ['isolation', 'memo', 'singleton', 'static'], rule)
